@@ -1451,9 +1451,10 @@ class SeqFamily(Family):
         a = self._core_pairs(tier, rng)
         b = self._core_triples(tier, rng)
         c = self._random(tier, rng)
+        v = self._core_viewers(tier, rng)
         while True:
             n = 0
-            for it, k in ((a, 300), (b, 120), (c, 180)):
+            for it, k in ((a, 300), (b, 120), (v, 12), (c, 180)):
                 for case in itertools.islice(it, k):
                     n += 1
                     yield case
@@ -1566,6 +1567,53 @@ class SeqFamily(Family):
                             sels = [[1, sel]]
                             calls = [seq_fix_stat(c, comps, sels) if c[0] == "stat" else c for c in calls]
                             yield seq_normalize([sh, comps, sels, calls])
+
+    def _core_viewers(self, tier, rng):
+        """pairs of viewer-state reads on the SAME layer state (its cached profile / histogram must follow every
+        setting: attribute, function, x axis / attribute, limits, bin count, log), optionally with a statistic whose
+        filter drops selected elements in between; data layer and subset layers holding memoised / copied masks"""
+        quick = tier == "quick"
+        cnt = 0
+        for nd in (2, 1):
+            sh, comps, kinds = self._core_world(nd)
+            ranges = {0: [(-5, 7), (qv(1, 2), qv(13, 2))], 1: [(5, comps[1][1][-1] + 5), (15, comps[1][1][-1] - 5)]}
+            hsets = []
+            for att in (0, 1):
+                for (r0, r1) in ranges[att]:
+                    for bins in (1, 2, 3, 4):
+                        if hist_is_clean(sh, comps[att][1], r0, r1, bins, False):
+                            hsets.append((att, r0, r1, bins, False))
+                if att == 1:
+                    for bins in (1, 3):
+                        if hist_is_clean(sh, comps[att][1], 5, 100, bins, True):
+                            hsets.append((att, 5, 100, bins, True))
+            psets = [(att, xa, func) for att in (0, 1) for xa in range(nd) for func in ("sum", "maximum", "mean")]
+            drop = ["stat", 0, 0, None, True, True, "sum", None, BIG]
+            for kname in (None, "ineq", "and", "bits", "not", "range"):
+                sels = [] if kname is None else [[1, kinds[kname]]]
+                sid = None if kname is None else 0
+                for i, p1 in enumerate(psets):
+                    for j, p2 in enumerate(psets):
+                        cnt += 1
+                        if quick and cnt % 11:
+                            continue
+                        calls = [["prof", p1[0], sid, p1[1], p1[2]]]
+                        if sid is not None and cnt % 3 == 0:
+                            calls.append(drop)
+                        calls.append(["prof", p2[0], sid, p2[1], p2[2]])
+                        yield seq_normalize([sh, comps, sels, calls])
+                for i, h1 in enumerate(hsets):
+                    for j, h2 in enumerate(hsets):
+                        cnt += 1
+                        if quick and cnt % 11:
+                            continue
+                        calls = [["hstate", h1[0], sid, h1[1], h1[2], h1[3], h1[4]]]
+                        if sid is not None and cnt % 3 == 0:
+                            calls.append(drop)
+                        calls.append(["hstate", h2[0], sid, h2[1], h2[2], h2[3], h2[4]])
+                        if cnt % 5 == 0:
+                            calls.append(["hist", h1[0], None, sid, h1[1], h1[2], h1[3], h1[4]])
+                        yield seq_normalize([sh, comps, sels, calls])
 
     def _random(self, tier, rng):
         quick = tier == "quick"
@@ -1801,10 +1849,8 @@ class SeqFamily(Family):
     def signature(self, case, po, res):
         sh, comps, sels, calls = case
         bad = res.get("bad")
-        kinds = sorted({c[0] for c in calls})
         sig = {"bad": "none" if bad == "none" else ("final" if str(bad).startswith("final") else "call"),
-               "badbr": res.get("badbr"), "hazard": res.get("hazard"), "ncalls": len(calls), "calls": "+".join(kinds),
-               "br": res.get("br")}
+               "hazard": res.get("hazard")}
         try:
             k = int(bad)
             sig["badkind"] = calls[k][0]
@@ -1888,7 +1934,10 @@ PROP = Property(
                   "means, (4n+8)*2^-52*max|x| for percentiles); fast_histogram.histogram1d is assumed to agree with exact "
                   "arithmetic on the generated data (bins compared exactly; weights have exact double sums)",
                   "subset_state.to_mask(data, view) == full mask[view] (property C04) — the model evaluates "
-                  "the selection to its full-shape mask"],
+                  "the selection to its full-shape mask",
+                  "heap model (StatsSeq): np.ones / np.array(..., dtype=float) / fancy indexing / the nan-functions allocate fresh "
+                  "arrays and the modelled &= / [~keep] = nan are the only writes — checked on the real code by the seq family "
+                  "(every later call and the final masks / stored arrays)"],
     assumptions=["data values are exactly representable in the component's storage dtype (float16/32/64, int8..64, "
                  "uint8..64, bool; re-checked by the driver: DType.holds), NaN or ±inf for the float dtypes; exact results "
                  "stay inside the double range and integer sums inside int64; comparison constants of inequality "
@@ -1899,5 +1948,8 @@ PROP = Property(
          "typed strata: 12 storage dtypes x precision-stressing arrays x statistic x (selection x view x axis x chunking) "
          "core plus seeded random incl. long reduction axes, typed histogram attribute x weights dtypes; histogram ranges "
          "ending exactly on data values at magnitudes 1e-12..1e15 (log) and large linear magnitudes; 2-d histograms (clean stratum); "
-         "non-trivial = a selection, a view or a chunk limit is present / histogram has a non-zero bin",
+         "sequences (family seq): exhaustive pairs / triples of calls on two core datasets x 7 state kinds (memoised and not) x "
+         "{attribute with NaN/inf/non-positive values inside the selection} x {finite, positive} x {no axis, un-chunked, chunked, view} x "
+         "{same object, twin object}, plus seeded random sequences of 2-8 statistic / histogram / profile-layer / histogram-layer calls; "
+         "non-trivial = a selection, a view or a chunk limit is present / histogram has a non-zero bin / a state object is shared by two calls",
 )
